@@ -1617,16 +1617,25 @@ chkpnt(void)
 
 	ECHS_NOTI_LOG("checkpoint");
 	if (ichkpnts >= countof(chkpnts)) {
-		rc = chkpnta();
-		goto fin;
+		if ((rc = chkpnta()) >= 0) {
+			/* all checkpoints cleared */
+			ichkpnts = 0U;
+		}
+		return rc;
 	}
-	/* otherwise just go through the list of checkpoint users */
-	for (size_t i = 0U; i < ichkpnts; i++) {
-		rc += chkpnt1(chkpnts[i].key);
+	/* otherwise just go through the list of checkpoint users,
+	 * whoever's file couldn't be written stays on it */
+	with (size_t nfail = 0U) {
+		for (size_t i = 0U; i < ichkpnts; i++) {
+			const uid_t u = chkpnts[i].key;
+
+			if (UNLIKELY(chkpnt1(u) < 0)) {
+				chkpnts[nfail++].key = u;
+				rc--;
+			}
+		}
+		ichkpnts = nfail;
 	}
-fin:
-	/* all checkpoints cleared hopefully */
-	ichkpnts = 0U;
 	return rc;
 }
 
